@@ -16,7 +16,7 @@ PROP = dict(
                    "0<=claimed<total for every account after EVERY history (induction over the op list), per-entry monotone/<=total/linear/complete, "
                    "claim never fails in any reachable state, cancel and vest-now exact. The model is replayed by Coq's VM on the very op sequences "
                    "the real app executed and must reproduce result kind, Eden, ELYS balance and every vesting entry after every step.",
-        level_note="Trusted: Coq kernel+VM; the Go harness; the model covers only the ueden->uelys vesting info; claim_succeeds assumes NumBlocks>0 "
-                   "(governance can set 0, which VestingInfo.Validate accepts: recorded in DESIGN.md).",
-        assumptions=["C14_claim_succeeds assumes governance never sets NumBlocks = 0 (Forall gov_ok ops)"],
+        level_note="Trusted: Coq kernel+VM; the Go harness; the model covers only the ueden->uelys vesting info. Since fix: 3c63217 a zero-block schedule is released "
+                   "at once and the claim handler cannot fail for any schedule length (C14_claim_never_fails); the accounting theorem C14_claim_succeeds is stated for NumBlocks > 0.",
+        assumptions=["C14_claim_succeeds (exact accounting of what a claim pays) is stated for histories in which governance keeps NumBlocks > 0; that the claim cannot fail holds unconditionally (C14_claim_never_fails)"],
     )
